@@ -117,6 +117,7 @@ struct Runner {
 				bool bad = rng.chance(1, 20);
 				size_t n = bad ? 65 + rng.below(10) : std::min<size_t>(rng.chance(1, 2) ? rng.below(65) : rng.pick(sizes), std::min<size_t>(64, s.size()));
 				size_t off = genOffset(s.size(), std::min(n, s.size()));
+				if (off / 64 >= s.getNumBlocks()) off = s.size() - 1; // extract() reads word offset/64 even for size 0: stay inside the vector
 				o << "extract " << r << ' ' << p << ' ' << off << ' ' << n << '\n';
 				uint64_t v = s.extract(p, off, n);
 				o << "-> " << vh::hex64(v) << '\n';
